@@ -91,7 +91,9 @@ def opsConn (op : String) (a : List Bytes) : Option String :=
   | "tosem", [cap, script] => do
     -- TimeoutHandler concurrency bound: script letters s (handler outlives its timeout) / f (returns at once)
     let n ← natOfDec? cap
-    some (" ".intercalate ((Fh.Model.TimeoutSem.serve (Fh.Model.TimeoutSem.init n) (script.map (· == 115))).map toString))
+    -- letters: s (handler outlives its timeout) / f (returns at once) / R (every handler still running returns now)
+    let toks := script.map fun c => if c == 115 then 1 else if c == 82 then 2 else 0
+    some (" ".intercalate ((Fh.Model.TimeoutSem.serveTok (Fh.Model.TimeoutSem.init n) toks).map toString))
   | "headend", [buf] =>
     match Fh.Model.parseHead (fun l b => (l, b)) buf with
     | .needMore => some "needmore"
